@@ -32,6 +32,7 @@ import (
 //   A <ms>                advance the virtual clock
 //   W <db>                one synchronous round of the expiry sampler
 //   G                     digest
+//   M <OP> <hex> ...      embedded API call (sugardb.Set/Get/...; see api.go); answered "R <canonical result>"
 //   E                     end of script
 // Output mirrors it: "S id", "R <reply>", "W ...", "G <digest>", "E".
 
@@ -279,6 +280,13 @@ func main() {
 				time.Sleep(in.gap)
 			case "K":
 				fmt.Fprintf(out, "K %s\n", in.db.VerifCacheDump())
+				out.Flush()
+			case "M":
+				args := make([]string, len(f)-2)
+				for i, h := range f[2:] {
+					args[i] = unhex(h)
+				}
+				fmt.Fprintf(out, "R %s\n", apiCall(in.db, f[1], args))
 				out.Flush()
 			case "E":
 				fmt.Fprintf(out, "E\n")
